@@ -12,16 +12,16 @@ IMPL_FIGURE_COLOR_OWN_LINE = True
 JUDGE = ["C17_WellFormed", "C17_Pages", "C17_Geometry", "C17_Single", "C17_Empty", "C17_Missing", "C17_Outcome"]
 B = {False, True}
 GEN = {
-    "quick": [dict(name="upto2", consts=dict(MaxFiles=2, Kinds={"table", "figure"}, PageSet={1, 2}, ColorSet=B, HFSet=B, MissingSet={False}, LandSet={False}, TailSet={"none", "para"}, EnvSet={False, True})),
-              dict(name="missing", consts=dict(MaxFiles=2, Kinds={"table"}, PageSet={1}, ColorSet={False}, HFSet={False}, MissingSet=B, LandSet={False}, TailSet={"none"}, EnvSet={False})),
-              dict(name="sim6", consts=dict(MaxFiles=6, Kinds={"table", "figure"}, PageSet={1, 2, 3}, ColorSet=B, HFSet=B, MissingSet={False}, LandSet=B, TailSet={"none", "para"}, EnvSet={False, True}), simulate=250)],
-    "thorough": [dict(name="upto3", consts=dict(MaxFiles=3, Kinds={"table", "figure"}, PageSet={1, 2}, ColorSet=B, HFSet=B, MissingSet={False}, LandSet={False}, TailSet={"none"}, EnvSet={False})),
-                 dict(name="land2", consts=dict(MaxFiles=2, Kinds={"table", "figure"}, PageSet={1, 3}, ColorSet=B, HFSet={False}, MissingSet={False}, LandSet=B, TailSet={"none", "para"}, EnvSet={False, True})),
-                 dict(name="missing", consts=dict(MaxFiles=3, Kinds={"table"}, PageSet={1}, ColorSet={False}, HFSet={False}, MissingSet=B, LandSet={False}, TailSet={"none"}, EnvSet={False})),
-                 dict(name="sim6", consts=dict(MaxFiles=6, Kinds={"table", "figure"}, PageSet={1, 2, 3}, ColorSet=B, HFSet=B, MissingSet={False}, LandSet=B, TailSet={"none", "para"}, EnvSet={False, True}), simulate=5000)],
+    "quick": [dict(name="upto2", consts=dict(MaxFiles=2, Kinds={"table", "figure"}, PageSet={1, 2}, ColorSet=B, HFSet=B, MissingSet={False}, LandSet={False}, TailSet={"none", "para"}, EnvSet={False, True}, PriorSet={"none", "failed", "other"})),
+              dict(name="missing", consts=dict(MaxFiles=2, Kinds={"table"}, PageSet={1}, ColorSet={False}, HFSet={False}, MissingSet=B, LandSet={False}, TailSet={"none"}, EnvSet={False}, PriorSet={"none"})),
+              dict(name="sim6", consts=dict(MaxFiles=6, Kinds={"table", "figure"}, PageSet={1, 2, 3}, ColorSet=B, HFSet=B, MissingSet={False}, LandSet=B, TailSet={"none", "para"}, EnvSet={False, True}, PriorSet={"none", "failed", "other"}), simulate=250)],
+    "thorough": [dict(name="upto3", consts=dict(MaxFiles=3, Kinds={"table", "figure"}, PageSet={1, 2}, ColorSet=B, HFSet=B, MissingSet={False}, LandSet={False}, TailSet={"none"}, EnvSet={False}, PriorSet={"none"})),
+                 dict(name="land2", consts=dict(MaxFiles=2, Kinds={"table", "figure"}, PageSet={1, 3}, ColorSet=B, HFSet={False}, MissingSet={False}, LandSet=B, TailSet={"none", "para"}, EnvSet={False, True}, PriorSet={"none", "failed", "other"})),
+                 dict(name="missing", consts=dict(MaxFiles=3, Kinds={"table"}, PageSet={1}, ColorSet={False}, HFSet={False}, MissingSet=B, LandSet={False}, TailSet={"none"}, EnvSet={False}, PriorSet={"none"})),
+                 dict(name="sim6", consts=dict(MaxFiles=6, Kinds={"table", "figure"}, PageSet={1, 2, 3}, ColorSet=B, HFSet=B, MissingSet={False}, LandSet=B, TailSet={"none", "para"}, EnvSet={False, True}, PriorSet={"none", "failed", "other"}), simulate=5000)],
 }
-MODEL = {"quick": dict(MaxFiles=2, Kinds={"table", "figure"}, PageSet={1, 2}, ColorSet=B, HFSet=B, MissingSet=B, LandSet={False}, TailSet={"none"}, EnvSet={False}),
-         "thorough": dict(MaxFiles=3, Kinds={"table", "figure"}, PageSet={1, 2}, ColorSet=B, HFSet=B, MissingSet={False}, LandSet={False}, TailSet={"none"}, EnvSet={False})}
+MODEL = {"quick": dict(MaxFiles=2, Kinds={"table", "figure"}, PageSet={1, 2}, ColorSet=B, HFSet=B, MissingSet=B, LandSet={False}, TailSet={"none"}, EnvSet={False}, PriorSet={"none"}),
+         "thorough": dict(MaxFiles=3, Kinds={"table", "figure"}, PageSet={1, 2}, ColorSet=B, HFSet=B, MissingSet={False}, LandSet={False}, TailSet={"none"}, EnvSet={False}, PriorSet={"none"})}
 INV = ["Balanced", "PagesInOrder", "NewPageAndGeometry", "SingleUnchanged", "EmptyWritesNothing", "MissingRaises"]
 KEEP = {"sig", "coloropen", "fontend_coloropen", "colorentry", "hdr", "ftr", "newpage"}
 
